@@ -37,6 +37,7 @@ type LoopSpec struct {
 type Split struct {
 	Var    string
 	Lo, Hi int
+	Table  string // split a struct parameter over the rows of a package-level table
 }
 
 type Contract struct {
@@ -56,6 +57,8 @@ type Contract struct {
 	Inline   bool
 	Pure     bool
 	Extern   bool
+	SameAs   string
+	Tags     map[string][]string
 	File     string
 	Line     int
 }
@@ -88,7 +91,7 @@ type ContractSet struct {
 
 var clauseKW = map[string]bool{"requires": true, "ensures": true, "modifies": true, "panics": true, "onpanic": true,
 	"loop": true, "hint": true, "status": true, "split": true, "inline": true, "pure": true,
-	"induction": true, "use": true, "axiom": true}
+	"induction": true, "use": true, "axiom": true, "same": true, "tags": true}
 
 var hdrFunc = regexp.MustCompile(`^func\s+(?:\(\s*\w*\s*\*?\s*([\w.]+)\s*\)\s*)?([\w.$]+)`)
 var labelRe = regexp.MustCompile(`^\[([^\]]*)\]`)
@@ -100,6 +103,16 @@ func loadContracts(paths []string) (*ContractSet, error) {
 			return nil, err
 		}
 		cs.Files = append(cs.Files, p)
+	}
+	for k, c := range cs.Funcs {
+		if c.SameAs == "" {
+			continue
+		}
+		o := cs.Funcs[c.SameAs]
+		if o == nil {
+			return nil, fmt.Errorf("%s: same %s: no such contract", k, c.SameAs)
+		}
+		c.Requires, c.Ensures, c.Modifies, c.HasMod, c.Panics, c.OnPanic = o.Requires, o.Ensures, o.Modifies, o.HasMod, o.Panics, o.OnPanic
 	}
 	return cs, nil
 }
@@ -391,10 +404,29 @@ func (cs *ContractSet) loadFile(path string) error {
 				// split v in lo..hi
 				var v string
 				var lo, hi int
+				if fs := strings.Fields(rest); len(fs) == 4 && fs[1] == "in" && fs[2] == "table" {
+					cur.Splits = append(cur.Splits, Split{Var: fs[0], Table: fs[3]})
+					continue
+				}
 				if _, err := fmt.Sscanf(strings.ReplaceAll(rest, "..", " "), "%s in %d %d", &v, &lo, &hi); err != nil {
 					return fmt.Errorf("%s: split v in lo..hi: %v", where, err)
 				}
-				cur.Splits = append(cur.Splits, Split{v, lo, hi})
+				cur.Splits = append(cur.Splits, Split{Var: v, Lo: lo, Hi: hi})
+			case "same":
+				cur.SameAs = strings.Fields(rest)[0]
+			case "tags":
+				fs := strings.Fields(rest)
+				if len(fs) < 2 {
+					return fmt.Errorf("%s: tags <kind> <props>", where)
+				}
+				if cur.Tags == nil {
+					cur.Tags = map[string][]string{}
+				}
+				for _, p := range strings.Split(strings.Join(fs[1:], ""), ",") {
+					if p != "" {
+						cur.Tags[fs[0]] = append(cur.Tags[fs[0]], p)
+					}
+				}
 			case "inline":
 				cur.Inline = true
 			case "pure":
